@@ -31,9 +31,9 @@ import (
 	"github.com/evanw/esbuild/internal/fs"
 	"github.com/evanw/esbuild/internal/graph"
 	"github.com/evanw/esbuild/internal/helpers"
-	"github.com/evanw/esbuild/internal/resolver"
 	"github.com/evanw/esbuild/internal/linker"
 	"github.com/evanw/esbuild/internal/logger"
+	"github.com/evanw/esbuild/internal/resolver"
 	"github.com/evanw/esbuild/pkg/api"
 	. "github.com/evanw/esbuild/verifharness/hlib"
 )
@@ -442,11 +442,11 @@ func tieGraphs(r *Rng, st *Stats, cf *CoqFile, n int) {
 	// fixed scenario: re-export chains (named re-export and export star, two hops)
 	{
 		files := map[string]string{
-			"m0.js": "import { y, z, w } from \"./m1.js\";\n$p(\"0:1\", y);\nconst unusedLocal = z;\n$p(\"0:2\", w);\n",
-			"m1.js": "export { x as y } from \"./m2.js\";\nexport * from \"./m3.js\";\nexport { w } from \"./m4.js\";\n",
-			"m2.js": "export const x = 1;\nexport const other = $p(\"2:1\");\n",
-			"m3.js": "export const z = 2;\n",
-			"m4.js": "export { v as w } from \"./m2b.js\";\n",
+			"m0.js":  "import { y, z, w } from \"./m1.js\";\n$p(\"0:1\", y);\nconst unusedLocal = z;\n$p(\"0:2\", w);\n",
+			"m1.js":  "export { x as y } from \"./m2.js\";\nexport * from \"./m3.js\";\nexport { w } from \"./m4.js\";\n",
+			"m2.js":  "export const x = 1;\nexport const other = $p(\"2:1\");\n",
+			"m3.js":  "export const z = 2;\n",
+			"m4.js":  "export { v as w } from \"./m2b.js\";\n",
 			"m2b.js": "export const v = 3;\n",
 		}
 		dumps, _, errText := linkWithDump(files, linkOpts{format: config.FormatESModule, treeShaking: true, entries: []string{"m0.js"}})
@@ -571,6 +571,7 @@ type glueCase struct {
 	minIdent bool
 	minSyn   bool
 	global   bool
+	target   int
 	exports  bool
 	native   int
 	vars     []*variant
@@ -709,7 +710,10 @@ func glue(r *Rng, st *Stats, n int) {
 		minWS := r.Chance(25)
 		c.exports = len(mg.files[0].exports) > 0
 		c.global = c.format == api.FormatIIFE && c.exports
-		c.desc = fmt.Sprintf("format=%d minifySyntax=%v minifyIdentifiers=%v minifyWhitespace=%v pure=%v", c.format, c.minSyn, c.minIdent, minWS, mg.pureOpt)
+		if mg.needsLowering {
+			c.target = 1 + r.Intn(2) // es2022, es2020 (at esnext esbuild keeps the `accessor` keyword, which Node 20 cannot parse; safari14 cannot lower destructuring: both only in the class-program stream)
+		}
+		c.desc = fmt.Sprintf("format=%d minifySyntax=%v minifyIdentifiers=%v minifyWhitespace=%v pure=%v target=%d(0 esnext,1 es2022,2 es2020,3 safari14)", c.format, c.minSyn, c.minIdent, minWS, mg.pureOpt, c.target)
 		names := []string{"off", "on"}
 		if mg.annotated {
 			names = append(names, "ign")
@@ -729,6 +733,14 @@ func glue(r *Rng, st *Stats, n int) {
 			}
 			if c.global {
 				o.GlobalName = "G"
+			}
+			switch c.target {
+			case 1:
+				o.Target = api.ES2022
+			case 2:
+				o.Target = api.ES2020
+			case 3:
+				o.Engines = []api.Engine{{Name: api.EngineSafari, Version: "14"}}
 			}
 			if mg.pureOpt {
 				o.Pure = []string{"$pp"}
@@ -825,12 +837,16 @@ func glue(r *Rng, st *Stats, n int) {
 			}
 			return m
 		}
+		noNative := false
 		if native.Err() == "SyntaxError" {
-			if first {
-				st.Histogram["generator-invalid-program"]++
-				st.Extra["invalid-example"] = c.mg.Text() + native.Thrown
+			if !c.mg.needsLowering {
+				if first {
+					st.Histogram["generator-invalid-program"]++
+					st.Extra["invalid-example"] = c.mg.Text() + native.Thrown
+				}
+				return nil
 			}
-			return nil
+			noNative = true // auto-accessors / decorators: Node cannot run the source, the bundles are compared with each other
 		}
 		if first {
 			for k, cnt := range c.mg.kinds {
@@ -877,9 +893,15 @@ func glue(r *Rng, st *Stats, n int) {
 			hasJSON = hasJSON || f.json
 		}
 		if hasCJS {
+			if on.Err() != "" || off.Err() != "" || (okIgn && ign.Err() != "") {
+				// an exception that aborts the bundle + lazily evaluated CommonJS members:
+				// which modules ran before the abort depends on the (documented) ordering
+				st.Histogram["abort-with-commonjs-inconclusive"]++
+				return out
+			}
 			native, off, on, ign = byModule(native), byModule(off), byModule(on), byModule(ign)
 		}
-		if hasJSON {
+		if hasJSON || noNative {
 			// node needs an import attribute for JSON modules: no native reference
 			if !okIgn {
 				native = off
@@ -979,13 +1001,14 @@ func knownScenarioCJSOrder(root string, st *Stats) {
 }
 
 // Fixed scenarios: tree shaking on vs off through api.Build, executed in Node.
-//   nested-var-use-linked (finding C04-B, fixed in /repo by ae718d6; must pass):
-//     a use of a top-level var through a nested redeclaration `{ var n; use(n) }`
-//     is recorded under the unmerged nested symbol; the linker now follows the
-//     symbol links before the TopLevelSymbolToParts lookup, so the top-level
-//     `var n = 1` stays. Before the fix the bundle printed undefined.
-//   nested-var-redeclare-assignment (regression of fix 0bc1420): the nested
-//     declaration must survive --minify-syntax block flattening.
+//
+//	nested-var-use-linked (finding C04-B, fixed in /repo by ae718d6; must pass):
+//	  a use of a top-level var through a nested redeclaration `{ var n; use(n) }`
+//	  is recorded under the unmerged nested symbol; the linker now follows the
+//	  symbol links before the TopLevelSymbolToParts lookup, so the top-level
+//	  `var n = 1` stays. Before the fix the bundle printed undefined.
+//	nested-var-redeclare-assignment (regression of fix 0bc1420): the nested
+//	  declaration must survive --minify-syntax block flattening.
 func fixedTreeShakingScenarios(root string, st *Stats) {
 	type scen struct {
 		what  string
